@@ -1408,7 +1408,7 @@ func c03NoPkt(c *Ctx) {
 		why := ""
 		nPkt := 0
 		for _, t := range in.Traces {
-			if t.Exit != ExitReturn || len(t.Results) != 2 {
+			if t.Exit != ExitReturn || len(t.RVals) != 2 {
 				continue
 			}
 			pv, ev := t.RVals[0], t.RVals[1]
